@@ -219,6 +219,10 @@ def gen(rng, nrng, tier):
         cplx = bool(i % 2)
         x = _data(nrng, 40, cplx)
         yield ("func", {"x": x, "c": _scalars(nrng, cplx, i)})
+    # "all data vectors": the same laws on records of very small and very large amplitude (c stays in [1e-3, 1e3])
+    for i, amp in enumerate((1e-8, 1e5, 2.0 ** -40, 1e-10, 3e6) if tier == "quick" else (1e-8, 1e5, 2.0 ** -40, 1e-10, 3e6, 1e-12, 1e7, 1e3, 1e-5)):
+        for cplx in (False, True):
+            yield ("func", {"x": amp * _data(nrng, 40, cplx), "c": [1000.0, 0.001, -3.0][i % 3]})
     for i in range(2 if tier == "quick" else 12):
         NB = 256
         tb = np.arange(NB)
